@@ -217,6 +217,21 @@ class Parents:
             n = self.parent(n)
         return n
 
+    def block_of(self, st: ast.AST) -> Optional[list]:
+        """the statement list that holds statement st"""
+        st = self.stmt_of(st)
+        par = self.parent(st) if st is not None else None
+        if par is None:
+            return None
+        for f in ("body", "orelse", "finalbody"):
+            b = getattr(par, f, None)
+            if isinstance(b, list) and any(x is st for x in b):
+                return b
+        for h in getattr(par, "handlers", []) or []:
+            if any(x is st for x in h.body):
+                return h.body
+        return None
+
     def loops_of(self, n: ast.AST) -> List[ast.AST]:
         """Enclosing for/while loops (innermost first) in whose *body* n lies (not orelse, not header)."""
         out = []
